@@ -78,6 +78,9 @@ static inline TP      i_tp(int64_t x) { return TP(std::chrono::steady_clock::dur
 extern int64_t last_now;
 extern int64_t cfg_ttl;  // constructor argument: uniform ttl (utlru, ut_map, ut_set), ticks
 extern int64_t cfg_tick; // constructor argument: lfuda dynamic age tick, ticks
+// constructor argument max_load_factor of the eight caches: any finite positive value (symbolic in the K2 step; the vstd
+// rehash rule does not depend on it).  Defined once here.
+static float cfg_mlf = 1.0f;
 template<class It, class End>
 static inline size_t pos_of(It b, End e, It x, size_t maxn)
 {
